@@ -532,10 +532,12 @@ class Module:
                 first = False
             toks = lex(ln)
             if pending:
-                pending.extend(toks)
-                if toks and toks[-1] == ']':
+                if toks and toks[0] == ']':      # "]" or "], !llvm.loop !N": the case list is complete
+                    pending.append(']')
                     code.append(pending)
                     pending = []
+                else:
+                    pending.extend(toks)
                 continue
             if toks and toks[0] == 'switch' and toks[-1] == '[':
                 pending = toks
@@ -1661,6 +1663,15 @@ class Engine:
                 return r & m
             raise SymxError(op)
         if x is UNDEF or y is UNDEF:
+            # an undefined operand does not matter where the other one decides the result (LLVM undef, not poison)
+            o = y if x is UNDEF else x
+            if type(o) is int:
+                if op == 'and' and o == 0:
+                    return 0
+                if op == 'or' and o == mask(bits):
+                    return o
+                if op == 'mul' and o == 0:
+                    return 0
             return UNDEF
         if bits == 1 and (z3.is_bool(x) or type(x) is int) and (z3.is_bool(y) or type(y) is int):
             xb = x if z3.is_bool(x) else z3.BoolVal(bool(x))
